@@ -138,6 +138,8 @@ def numclass(lit):
         return "number:int"
     frac = "frac" if m.group(3) else "nofrac"
     exp = "noexp" if not m.group(4) else ("exp-" if m.group(5) == "-" else "exp+")
+    if m.group(4) and abs(int(m.group(6))) >= 309:
+        return "number:written-exponent>=309:" + exp   # non-normalised numeral, the value itself is in range
     if int(m.group(2)) > I64_MAX:
         return "number:integer-part-beyond-int64"
     return "number:%s:%s" % (frac, exp)
@@ -651,10 +653,11 @@ def _big_stack(fn, *a):
 
 def positions(n, quick=False):
     """Edit positions used for a base document of n bytes: all of them up to 120 bytes, else an even sample of
-    about 120 (documents over 600 bytes, i.e. the deep/long ones whose parse costs ~1 ms under ASan: about 24 in the quick tier)."""
+    about 120 (quick tier: about 30 for documents over 300 bytes - the long number lists, long strings and deep
+    documents, whose parse costs 0.1-1 ms under ASan)."""
     if n <= 120:
         return 1, 0
-    want = 24 if (quick and n > 600) else 120
+    want = 30 if (quick and n > 300) else 120
     return (n + want - 1) // want, 0
 
 
